@@ -422,7 +422,11 @@ fn merging(run: &Arc<Run>, thorough: bool) {
                 match vp_core::catch(|| run_merge(parts, &order, *n)) {
                     Ok(Ok(c)) => lc.class(&format!("{}:{}", name.split(':').next().unwrap_or(""), c), || json!({"server": name, "order": order})),
                     Ok(Err(msg)) => {
-                        run.violation(&format!("c18:merge:{}:{}", name.split(':').next().unwrap_or(""), msg.split(|c: char| c.is_ascii_digit() || c == '{' || c == '[').next().unwrap_or("").trim()), &format!("{}: {}", name, msg), json!({"server": name, "order_of_parts": order, "parts_hex": parts.iter().map(|p| vp_core::hex_short(p)).collect::<Vec<_>>()}));
+                        let mut sorted = order.clone();
+                        sorted.sort();
+                        sorted.dedup();
+                        let dup = if sorted.len() != order.len() { "with-repeated-part" } else { "no-repeated-part" };
+                        run.violation(&format!("c18:merge:{}:{}:{}", name.split(':').next().unwrap_or(""), dup, msg.split(|c: char| c.is_ascii_digit() || c == '{' || c == '[').next().unwrap_or("").trim()), &format!("{}: {}", name, msg), json!({"server": name, "order_of_parts": order, "parts_hex": parts.iter().map(|p| vp_core::hex_short(p)).collect::<Vec<_>>()}));
                     }
                     Err(p) => {
                         run.violation(&format!("c18:merge:{}", vp_core::panic_sig(&p)), &format!("{}: {}", name, p), json!({"server": name, "order_of_parts": order}));
@@ -463,7 +467,8 @@ fn merging(run: &Arc<Run>, thorough: bool) {
             match vp_core::catch(|| run_merge(&parts, order, n)) {
                 Ok(Ok(_)) => run.class(&format!("family:{}:parts{}", fam, if k > 32 { ">32" } else { "<=32" }), || json!({"clients": n, "order_head": &order[..order.len().min(8)]})),
                 Ok(Err(msg)) => {
-                    run.violation(&format!("c18:merge:family:{}", msg.split(|c: char| c.is_ascii_digit() || c == '{' || c == '[').next().unwrap_or("").trim()), &format!("{} clients, 1 per packet, {}: {}", n, fam, msg), json!({"clients": n, "family": fam, "order_of_parts": order}));
+                    let dup = if fam.contains("+dup") { "with-repeated-part" } else { "no-repeated-part" };
+                    run.violation(&format!("c18:merge:family:{}:{}", dup, msg.split(|c: char| c.is_ascii_digit() || c == '{' || c == '[').next().unwrap_or("").trim()), &format!("{} clients, 1 per packet, {}: {}", n, fam, msg), json!({"clients": n, "family": fam, "order_of_parts": order}));
                 }
                 Err(p) => {
                     run.violation(&format!("c18:merge:{}", vp_core::panic_sig(&p)), &format!("{} clients, 1 per packet, {}: {}", n, fam, p), json!({"clients": n, "family": fam, "order_of_parts": order}));
